@@ -190,8 +190,8 @@ def analyse(facts, crate="xml_info"):
 def rule(facts, res, rule_name, floor=4):
     a = analyse(facts)
     st = res.rule(rule_name, instances=a["stores"], registering_constructors=len(a["reg_ctor"]))
-    if a["stores"] < floor or len(a["reg_ctor"]) < 8:
-        raise BrokenCheck("%s: %d stores of Rc<XmlItem> into child vectors / %d registering constructors (floor %d / 8)"
+    if a["stores"] < floor or len(a["reg_ctor"]) < 4:
+        raise BrokenCheck("%s: %d stores of Rc<XmlItem> into child vectors / %d registering constructors (floor %d / 4)"
                           % (rule_name, a["stores"], len(a["reg_ctor"]), floor))
     bad = {}
     for fid, n, cid, pi in a["violations"]:
